@@ -19,29 +19,43 @@ PID = "C17"
 LEVEL = "proof"
 REQUIRED_THEOREMS = [
     "subdivide_sum", "subdivide_pos", "subdivide_balanced", "subdivide_contract", "contractB_iff", "balancedB_iff",
+    "linCut_exact", "subdivideLin_exact", "subdivideLin_contract", "cut_at_integer_point", "subdivide_robust",
     "slices_tile", "slices_tile_nd", "boxes_cover", "boxes_disjoint", "box_in_array", "id_idx_bijection",
     "bounds_tile", "subgrid_spacing", "cell_coords_agree", "volumes_add_up", "volumes_add_up_nd",
     "combine_extract_id", "combine_extract_id_list", "extract_combine_id", "extract_combine_id_consistent",
     "combineUpTo_spec", "neighbor_symmetric", "neighbor_none_iff", "neighbor_respects_periodicity",
-    "neighbor_adjacent", "flags_match", "get?_extract_ghost", "operator_commutes_with_split",
-    "operator_split_combine", "ghost_exchange", "too_many_chunks_raises", "fromGrid_too_many_chunks",
-    "cylinder_split_raises", "admissible_ok", "cylinder_z_split_ok",
+    "neighbor_adjacent", "neighbor_lt_len", "flags_match", "get?_extract_ghost", "operator_commutes_with_split",
+    "operator_split_combine", "ghost_exchange", "exchangeAxis_face", "exchangeAxis_other", "exchangeUpTo_spec",
+    "exchange_faces", "setOuter_exchange_agree", "operator_exchange_combine", "outer_of_no_neighbor", "outer_face_local",
+    "too_many_chunks_raises", "fromGrid_too_many_chunks", "cylinder_split_raises", "admissible_ok", "cylinder_z_split_ok",
 ]
 RULE = ("every decomposition (chunk vector <= shape, all periodic flags) of small Cartesian grids "
         "(1-d <= 12 cells, 2-d <= 6x5, 3-d <= 4x3x3: exhaustive in thorough, a seed-chosen subset in quick) "
         "plus spherical/polar (all chunk counts) and cylindrical (all z-splits) grids with seed-derived bounds; "
         "all pairs chunks <= num <= 400 for `_subdivide`; a separate malformed stream (more chunks than cells, "
-        "radial cylinder split, hollow cylinder, bad decomposition lists) whose expected outcome is an error "
-        "class; operator-equivalence cases (grid, decomposition, operator, boundary condition, field) executed "
-        "with a serial emulation of the ghost-cell exchange.  A case is distinct by its full specification and "
-        "non-trivial if the mesh has >= 2 sub-grids (mesh legs), chunks >= 2 (subdivide leg) or the expected "
-        "outcome is an error (malformed leg)")
+        "radial cylinder split, hollow cylinder, bad decomposition lists, node counts `mpi.size` > 1 that do or do not "
+        "match) whose expected outcome is an error class; operator-equivalence cases (grid, decomposition, operator, "
+        "boundary condition, field) executed with one thread per node and an in-memory transport: periodic axes carry "
+        "'periodic' or 'anti-periodic' (all spellings; a dedicated stream splits the anti-periodic axis into 2, 3.. "
+        "chunks), the other faces value/derivative/mixed/curvature with uniform or per-component values, conditions on "
+        "the normal component (divergence operators), coordinate-dependent expressions (scalars), values varying along "
+        "the face.  A case is distinct by its full specification and non-trivial if the mesh has >= 2 sub-grids (mesh "
+        "legs), chunks >= 2 (subdivide leg), the expected outcome is an error or the node count matters (malformed "
+        "leg), or the operator result is non-zero on >= 2 sub-grids (operator legs)")
 ASSUMPTIONS = [
-    "MPI transport is not available (mpi4py absent): send/recv are emulated serially by an in-memory mailbox keyed "
-    "by (source, destination, tag); everything else of the exchange is the real code",
+    "MPI transport is not available (mpi4py/numba_mpi absent): send/recv are emulated by an in-memory mailbox keyed "
+    "by (source, destination, tag) with blocking receive, every node runs in its own thread with a thread-local "
+    "`mpi.rank`; everything else of the exchange is the real code (BoundariesList.set_ghost_cells, "
+    "BoundaryAxisBase.set_ghost_cells, _MPIBC, extract_boundary_conditions, to_subgrid; in source mode also the "
+    "ghost-cell setters/senders of the numba_mpi backend run as Python source, imported with an empty stand-in for "
+    "the `numba_mpi` package, and subgrid.make_operator(op, bc))",
     "float geometry (bounds, cell coordinates, volumes) is compared with the exact model up to 1e-12 of the domain "
     "scale (Cartesian grids store bounds as position + size, so sub-grid bounds are not bit-identical to the lattice)",
     "operator equivalence is checked to 1e-10 of the natural scale max|data|/dx^2",
+    "the contract of the real chunk sizes is decided by the model on the real sizes (`contractB`/`balancedB`, all "
+    "pairs chunks <= num <= 400 and a sample up to 5000); it is proven for the code's formula in exact arithmetic "
+    "(`subdivideLin_contract`) and for every perturbation of the form `RobustCuts` (`subdivide_robust`); that IEEE "
+    "doubles only produce such perturbations is measured (histogram `subdivide`), not proven",
 ]
 TRUSTED_EXTRA = ["numpy basic slicing/assignment semantics are modelled by `Arr.slice`/`writeBox`"]
 
